@@ -17,9 +17,19 @@ Theorem C18_url_shape : forall announce hash,
   create_url announce hash = announce ++ [if existsb (N.eqb ch_q) announce then ch_amp else ch_q] ++ s_info_hash ++ [ch_eq] ++ byte_serialize hash.
 Proof. reflexivity. Qed.
 
-(* the statement about the whole request (path and original parameters kept; peer_id, port, left present) is
-   decided on the request line the real client sends, by Corr/C18.v's oracle; no general Coq theorem over all
-   announce URLs yet *)
+(* in the query of the request - behind whatever parameters the announce URL already had (none of them an info_hash), in
+   front of the client's own parameters - the info_hash parameter is found and decodes to exactly the hash, for every hash *)
+Theorem C18_info_hash_found : forall q0 hash rest, Forall (fun b => b < 256) hash -> lookup s_info_hash (query_pairs q0) = None ->
+  lookup s_info_hash (query_pairs (q0 ++ ch_amp :: (s_info_hash ++ ch_eq :: byte_serialize hash) ++ ch_amp :: rest)) = Some hash.
+Proof. exact info_hash_found. Qed.
+
+(* and the parameters in front of it are kept as written *)
+Theorem C18_existing_kept : forall q0 k v rest, no_sep ch_amp k = true -> no_sep ch_eq k = true -> k <> [] -> no_sep ch_amp v = true ->
+  query_pairs (q0 ++ ch_amp :: (k ++ ch_eq :: v) ++ ch_amp :: rest) = query_pairs q0 ++ (k, v) :: query_pairs rest.
+Proof. exact pairs_middle. Qed.
+
+(* the statement about host and path, and about an announce URL without a query (the parameter then comes first), is decided
+   on the request line the real client sends, by Corr/C18.v's oracle *)
 Example C18_nonvacuous :
   let target := request_target (hx "687474703a2f2f683a312f613f6b3d76") [0; 38; 37; 43; 255] (hx "4141414141414141414141414141414141414141") 7 in
   let ps := query_pairs (snd (path_query target)) in
@@ -29,3 +39,5 @@ Proof. vm_compute. repeat split. Qed.
 Print Assumptions C18_hash_roundtrip.
 Print Assumptions C18_hash_safe.
 Print Assumptions C18_url_shape.
+Print Assumptions C18_info_hash_found.
+Print Assumptions C18_existing_kept.
